@@ -72,6 +72,7 @@ pub fn profile(name: &str) -> Option<Profile> {
                 w_config: 28,
                 w_removal: 5,
                 w_keyroll: 34,
+                w_signer: 5,
                 ..GenCfg::default()
             },
             ..base
